@@ -108,7 +108,7 @@ func sweepCmapTable(tbl cmap.Table) {
 	for key := range tbl {
 		if st, err := tbl.Get(key); err == nil && st != nil {
 			probeRunes(st)
-			st.Encode(key.Language)
+			reencoding(func() { st.Encode(key.Language) })
 		}
 		// (GetNoLang sorts all keys on every call: asked for a bounded number
 		// of keys, so that the sweep as a whole stays linear in the table)
@@ -361,6 +361,26 @@ func targetByName(name string) *target {
 	panic("no target " + name)
 }
 
+// reencoding runs a re-encoding step of an accessor sweep.  The property
+// bounds the time and memory of the decoders (the lazy ones included), and of
+// re-encoding it only says "without a panic": the CPU time and the
+// allocations of fn are taken out of the sweep's account (Format4.Encode is
+// quadratic in the number of irregular mappings, which is an observation,
+// not a violation of C02); a panic in fn is a panic of the sweep.
+func reencoding(fn func()) {
+	var cpu time.Duration
+	alloc := guard.Alloc(func() {
+		cpu = guard.CPU(fn)
+	})
+	reencCPU += cpu
+	reencAlloc += alloc
+}
+
+var (
+	reencCPU   time.Duration
+	reencAlloc uint64
+)
+
 // run executes one target on one input with every guard of the property.
 func (tg *target) run(b []byte) outcome {
 	var out outcome
@@ -381,11 +401,14 @@ func (tg *target) run(b []byte) outcome {
 			out.phase = "sweep"
 			// the lazy accessors decode too (cmap subtables, simple glyphs):
 			// they are held to the same bound as the decoder itself
+			reencCPU, reencAlloc = 0, 0
 			out.sweepAlloc = guard.Alloc(func() {
 				out.sweepCPU = guard.CPU(func() {
 					out.panic = guard.Try(sweep)
 				})
 			})
+			out.sweepCPU = max(out.sweepCPU-reencCPU, 0)
+			out.sweepAlloc -= min(reencAlloc, out.sweepAlloc)
 		}
 	})
 	noteCPU(tg.name, len(b), out.cpu)
